@@ -7,6 +7,7 @@ import (
 	"strings"
 	"time"
 
+	appsv1 "k8s.io/api/apps/v1"
 	corev1 "k8s.io/api/core/v1"
 	storagev1 "k8s.io/api/storage/v1"
 	metav1 "k8s.io/apimachinery/pkg/apis/meta/v1"
@@ -44,6 +45,7 @@ type c11Run struct {
 func nodeKey(n string) ckey  { return ckey{"Node", "", n} }
 func claimKey(n string) ckey { return ckey{"NodeClaim", "", n} }
 func podKey(n string) ckey   { return ckey{"Pod", "default", n} }
+func dsKey(n string) ckey    { return ckey{"DaemonSet", "default", n} }
 
 func c11Claim(name, pool, pid string) *v1.NodeClaim {
 	nc := &v1.NodeClaim{ObjectMeta: metav1.ObjectMeta{Name: name, UID: types.UID("uid-" + name), Labels: map[string]string{v1.NodePoolLabelKey: pool, corev1.LabelInstanceTypeStable: "m", v1.NodeClassLabelKey(world.NodeClassRef().GroupKind()): "default"}, Finalizers: []string{v1.TerminationFinalizer}}}
@@ -291,6 +293,38 @@ var c11Scripts = map[string][]c11Step{
 		}),
 		mut("N1 heartbeat 2", []ckey{nodeKey("n1")}, updNode("n1", func(n *corev1.Node) { n.Labels["beat"] = "2" })),
 	},
+	// the DaemonSet cache (which pod stands for the daemonset when overhead is computed) follows the NEWEST pod the
+	// daemonset controls; the state.daemonset controller sees a DaemonSet when it is created and then re-polls it every
+	// minute — the re-poll is modelled as a notification of the DaemonSet key whenever one of its pods changed
+	"daemonset-pod-cache-follows-the-newest-pod": {
+		mut("C1+N1 and DaemonSet ds", []ckey{claimKey("c1"), nodeKey("n1"), dsKey("ds")}, func(x *c11Run) {
+			addObj(c11Claim("c1", "a", "pid1"))(x)
+			addObj(c11Node("n1", "a", "pid1", true))(x)
+			x.w.Add(world.DaemonSet("ds", 700))
+		}),
+		mut("daemon pod d1 lands on N1", []ckey{podKey("d1"), dsKey("ds")}, addObj(c11Pod("d1", "n1", "daemon"))),
+		mut("rolling update: d1 replaced by the newer, larger d2", []ckey{podKey("d1"), podKey("d2"), dsKey("ds")}, func(x *c11Run) {
+			old := &corev1.Pod{}
+			if err := x.w.Raw.Get(x.w.Ctx, clientKey("default", "d1"), old); err == nil {
+				x.w.EnvDelete(old)
+			}
+			np := c11Pod("d2", "n1", "daemon")
+			np.CreationTimestamp = metaT(world.Epoch.Add(time.Minute))
+			np.Spec.Containers[0].Resources.Requests[corev1.ResourceCPU] = resource.MustParse("900m")
+			x.w.Add(np)
+		}),
+		mut("an unrelated pod of another owner appears in the namespace", []ckey{podKey("p9")}, addObj(c11Pod("p9", "n1", "cost"))),
+		mut("DaemonSet ds deleted, d2 goes with it", []ckey{podKey("d2"), dsKey("ds")}, func(x *c11Run) {
+			ds := &appsv1.DaemonSet{}
+			if err := x.w.Raw.Get(x.w.Ctx, clientKey("default", "ds"), ds); err == nil {
+				x.w.EnvDelete(ds)
+			}
+			p := &corev1.Pod{}
+			if err := x.w.Raw.Get(x.w.Ctx, clientKey("default", "d2"), p); err == nil {
+				x.w.EnvDelete(p)
+			}
+		}),
+	},
 	"csinode-limit-and-pvc": {
 		mut("C1+N1 with CSINode limit 1", []ckey{claimKey("c1"), nodeKey("n1")}, func(x *c11Run) {
 			addObj(c11Claim("c1", "a", "pid1"))(x)
@@ -343,6 +377,13 @@ func digestCluster(w *world.World, c *state.Cluster) []string {
 		nodes := r[corev1.ResourceName("nodes")]
 		a, d, pd := c.NodePoolState.GetNodeCount(p)
 		out = append(out, fmt.Sprintf("pool %s cpu=%d nodes=%d active=%d deleting=%d pending=%d", p, r.Cpu().MilliValue(), nodes.Value(), a, d, pd))
+	}
+	for _, dn := range []string{"ds"} {
+		cached := "none"
+		if p := c.GetDaemonSetPod(&appsv1.DaemonSet{ObjectMeta: metav1.ObjectMeta{Name: dn, Namespace: "default"}}); p != nil {
+			cached = fmt.Sprintf("%s cpu=%d", p.Name, p.Spec.Containers[0].Resources.Requests.Cpu().MilliValue())
+		}
+		out = append(out, fmt.Sprintf("daemonset %s cached-pod=%s", dn, cached))
 	}
 	anti := 0
 	c.ForPodsWithAntiAffinity(func(p *corev1.Pod, n *corev1.Node) bool { anti++; return true })
